@@ -42,6 +42,17 @@ theorem config_key_match_source (key pfx rest : Bytes) :
   · intro h; exact Res.ok.inj h
   · intro h; rw [h]
 
+/-- **the record loop of `GetConfig`, REGENERATED from git/gitconfig.go on this run** (`for len(out) > 0`,
+    `bytes.IndexByte`, the slices `out[:entryEnd]`, `out[entryEnd+1:]`, `record[:keyEnd]`,
+    `record[keyEnd+1:]` as checked operations, the call of `configKeyMatchesPrefix`, `continue`,
+    `append`) computes exactly the model's `getConfig` on every listing and prefix: the same entries in
+    the same order, an error exactly for a listing without a final NUL, never a panic -/
+theorem get_config_source (pfx listing : Bytes) :
+    Gen.Strs.GetConfig_records pfx listing =
+      match getConfig listing pfx with
+      | some es => .ok es
+      | none => .err "error" := getConfig_regenerated pfx listing
+
 /-- no leak between sibling names: an entry of `refgroup.ab.*` is not under `refgroup.a` -/
 theorem no_leak_example :
     (keyMatchesPrefix (Bytes.ofString "refgroup.ab.include") (Bytes.ofString "refgroup.a")).1 = false := by
